@@ -113,4 +113,62 @@ theorem event_fields_iff_event (o : StoreOpts) (c : DrawCtx) :
     simp only [List.mem_cons, List.not_mem_nil, or_false] at hn
     rcases hn with h | h | h | h | h <;> subst h <;> simp [expectedPresent] at hp <;> simp_all
 
+/-- the statistics with event dimension `transformation_update` -/
+def updateFields : List String :=
+  ["transformation_update_id", "mass_matrix_inv", "transformation_mu", "mass_matrix_stds", "mass_matrix_eigvals",
+   "num_eigenvalues"]
+
+/-- the presence rule of `name` implies the event `e` happened in the draw -/
+def eventHappened (c : DrawCtx) (e : String) : Bool :=
+  if e == "divergence" then c.diverging else if e == "transformation_update" then c.idChanged else false
+
+/-- over the generated schemas of all presets: a field that declares an event dimension is optional,
+    its event is one of the two known ones, and its name is classified under THAT event (so a field
+    moved to the other event dimension, or a new event field without presence rule, fails here). -/
+theorem event_classified_dec : ∀ p : Preset, (presetFlat p).map (fun f =>
+    f.all (fun b => match b.event with
+      | none => true
+      | some e => b.isOption &&
+          ((e == "divergence" && divergenceFields.contains b.name) ||
+           (e == "transformation_update" && updateFields.contains b.name)))) = some true := by
+  intro p; cases p <;> decide
+
+/-- **C16 / event statistics, quantified over the declared schema**: for every preset and every
+    declared statistic with an event dimension `e`, the statistic is optional and can be present
+    only on a draw where `e` happened (divergence: the draw diverged; transformation_update: the
+    transformation id changed), whatever the store options. -/
+theorem event_field_present_only_on_event (p : Preset) (flat : List Basic) (h : presetFlat p = some flat)
+    (b : Basic) (hb : b ∈ flat) (e : String) (he : b.event = some e) (o : StoreOpts) (c : DrawCtx)
+    (hp : expectedPresent o c b.name = some true) :
+    b.isOption = true ∧ eventHappened c e = true := by
+  have := event_classified_dec p
+  rw [h] at this
+  simp only [Option.map_some, Option.some.injEq, List.all_eq_true] at this
+  have hb' := this b hb
+  rw [he] at hb'
+  simp only [Bool.and_eq_true, Bool.or_eq_true, beq_iff_eq, List.contains_eq_mem, decide_eq_true_eq] at hb'
+  refine ⟨hb'.1, ?_⟩
+  rcases hb'.2 with ⟨rfl, hm⟩ | ⟨rfl, hm⟩
+  · have := (event_fields_iff_event o c).1 b.name hm hp
+    simp [eventHappened, this]
+  · simp only [updateFields, List.mem_cons, List.not_mem_nil, or_false] at hm
+    have hc : c.idChanged = true := by
+      rcases hm with h | h | h | h | h | h <;> rw [h] at hp <;> simp [expectedPresent] at hp <;> simp_all
+    simp [eventHappened, hc]
+
+/-- the identifying fields of each event are declared by every preset that declares the event at
+    all: `divergence_draw`/`divergence_message` accompany any divergence field, and
+    `transformation_update_id` accompanies any transformation-update field. -/
+theorem identifying_fields_declared_dec : ∀ p : Preset, (presetFlat p).map (fun f =>
+    (!(f.any (fun b => b.event == some "divergence")) ||
+       (f.any (fun b => b.name == "divergence_draw") && f.any (fun b => b.name == "divergence_message"))) &&
+    (!(f.any (fun b => b.event == some "transformation_update")) ||
+       f.any (fun b => b.name == "transformation_update_id"))) = some true := by
+  intro p; cases p <;> decide
+
+/-- non-vacuity: the diagonal NUTS preset declares event fields of both kinds -/
+example : (presetFlat .diagNuts).map (fun f =>
+    f.any (fun b => b.event == some "divergence") && f.any (fun b => b.event == some "transformation_update")) = some true := by
+  decide
+
 end NutsModel.C16
